@@ -23,6 +23,22 @@ theorem translator_recognised : TTGen.C13.recognised = true := by decide
 /-- the source tests for an existing id before construction AND again before registration -/
 theorem source_is_fixed : TTGen.C13.cfg = Cfg.fixed := by decide
 
+/-- every class whose `from_json` writes to the registry itself (AST scan of the whole library): only
+FlexibleTimeTreeModel, whose own duplicate test and registration both stand after exactly one
+`process_object` call (`taxa`) — nothing is loaded between the test and the registration -/
+theorem source_dic_writers : TTGen.C13.dicWriters = [("FlexibleTimeTreeModel", 1, 1)] := by decide
+
+/-- … and each of them is in the class table with that very registration point, its own test
+standing immediately before the registration (what `constructSelf` models) -/
+theorem self_registration_points_modelled :
+    ∀ w ∈ TTGen.C13.dicWriters,
+      w.2.1 = w.2.2 ∧ ((classTable.find w.1).bind (·.selfRegAfter)) = some w.2.2 := by
+  decide +kernel
+
+/-- classes that resolve a reference by reading `dic[...]` themselves (Distribution is in the class
+table with that behaviour; Alignment and nn.Module are outside the modelled classes) -/
+theorem source_dic_readers : TTGen.C13.dicReaders = ["Alignment", "Distribution", "Module"] := by decide
+
 variable {ν : Type}
 
 /-- (for the concrete examples) a successful result satisfying a decidable test -/
